@@ -28,6 +28,7 @@ use rustfmt_nightly::verif_hooks::strings as hs;
 use rustfmt_nightly::Config;
 use serde_json::json;
 
+use crate::pool::{self, Job, Status};
 use crate::util::*;
 
 const ALPHA: [char; 13] = ['a', 'b', ' ', '\n', '\\', '"', ',', '.', ':', '/', 'h', 't', 'p'];
@@ -325,17 +326,47 @@ fn rustc_value(body: &str) -> Option<String> {
 }
 
 /// The Lean specifications on what the real `rewrite_string` returned.
-fn judge_rewrite(o: &mut Outcome, f: &F, orig: &str, s: &str, desc: &'static str) {
+fn judge_rewrite(o: &mut Outcome, f: &F, orig: &str, s: &str, desc: &'static str, parts: Parts) {
     if f.opener == "\"" && f.closer == "\"" && f.le == "\\" && !f.trim {
+        if !parts.lit {
+            return;
+        }
         if let Some(body) = s.strip_prefix('"').and_then(|x| x.strip_suffix('"')) {
-            o.push("oracle", "str.valeq", format!("str.valeq {} {}", enc_str(orig), enc_str(body)), "ok".into(), desc.into(), s.contains('\n'));
+            if orig.contains('\r') {
+                // `strip_value_counterexample`: backslash-CR is a continuation for the regex only
+                o.count("oracle-skipped:literal-with-CR");
+            } else {
+                o.push("oracle", "str.valeq", format!("str.valeq {} {}", enc_str(orig), enc_str(body)), "ok".into(), desc.into(), s.contains('\n'));
+            }
         } else {
             o.direct_failures.push(json!({"sig": "strings:literal-lost-its-quotes", "orig": orig, "out": s}));
         }
     } else if f.trim && f.opener.is_empty() && f.closer.is_empty() && f.le.is_empty() {
-        o.push("oracle", "cmt.payloadeq", format!("cmt.payloadeq {} {} {}", enc_str(&f.ls), enc_str(orig), enc_str(s)), "ok".into(), desc.into(), s.contains('\n'));
-        o.push("oracle", "cmt.refines", format!("cmt.refines {} {} {}", enc_str(&f.ls), enc_str(orig), enc_str(s)), "ok".into(), desc.into(), s.contains('\n'));
+        if !parts.cmt {
+            return;
+        }
+        if orig.contains("\\\n") || orig.contains("\\\r") {
+            // the continuation regex is applied to comment text too (known finding STR-CMT-CR, probed end to end)
+            o.count("oracle-skipped:comment-with-backslash-newline");
+        } else {
+            o.push("oracle", "cmt.payloadeq", format!("cmt.payloadeq {} {} {}", enc_str(&f.ls), enc_str(orig), enc_str(s)), "ok".into(), desc.into(), s.contains('\n'));
+            o.push("oracle", "cmt.refines", format!("cmt.refines {} {} {}", enc_str(&f.ls), enc_str(orig), enc_str(s)), "ok".into(), desc.into(), s.contains('\n'));
+        }
     }
+}
+
+/// Which parts of the universe to run: the integrator calls `cases_c01` / `cases_c02` / `cases_c03`,
+/// `rfverif strings` runs everything.
+#[derive(Clone, Copy)]
+pub struct Parts {
+    /// model-vs-code correspondence of everything in string.rs
+    pub corr: bool,
+    /// string literals: value oracle in-process and end to end (C01)
+    pub lit: bool,
+    /// comments: payload / word-refinement oracles in-process and end to end, probes (C03)
+    pub cmt: bool,
+    /// re-breaking at the same width is the identity, in-process and end to end (C02)
+    pub idem: bool,
 }
 
 /// Reads the regex literal of `rewrite_string` out of string.rs (as the `regex` crate sees it).
@@ -347,7 +378,7 @@ fn regex_literal() -> Option<String> {
     Some(rest[..end].to_string())
 }
 
-pub fn cases(o: &mut Outcome, rng: &mut Rng, thorough: bool) {
+pub fn cases_parts(o: &mut Outcome, rng: &mut Rng, thorough: bool, parts: Parts) {
     let dom = domain(o);
     let alpha = alpha_strs();
     let alpha_refs: Vec<&str> = alpha.iter().map(|s| s.as_str()).collect();
@@ -367,13 +398,13 @@ pub fn cases(o: &mut Outcome, rng: &mut Rng, thorough: bool) {
     }
     let toks = all_strings(TOKENS, if thorough { 3 } else { 2 });
     let mut break_inputs: Vec<(&str, &'static str, std::ops::RangeInclusive<usize>)> = vec![];
-    for s in &short {
+    for s in short.iter().filter(|_| parts.corr) {
         break_inputs.push((s, "exhaustive-short", 1..=(if thorough { 6 } else { 5 })));
     }
-    for s in &padded {
+    for s in padded.iter().filter(|_| parts.corr) {
         break_inputs.push((s, "exhaustive-padded", 9..=16));
     }
-    for s in &toks {
+    for s in toks.iter().filter(|_| parts.corr) {
         break_inputs.push((s, "token-sequences", 1..=1));
     }
     for (s, desc, widths) in break_inputs {
@@ -406,7 +437,8 @@ pub fn cases(o: &mut Outcome, rng: &mut Rng, thorough: bool) {
     }
 
     // ---- the regex: the `regex` crate on the literal of string.rs vs the hand-written matcher
-    match regex_literal().and_then(|l| regex::Regex::new(&l).ok()) {
+    match regex_literal().and_then(|l| regex::Regex::new(&l).ok()).filter(|_| parts.corr) {
+        None if !parts.corr => {}
         None => o.direct_failures.push(json!({"sig": "strings:regex-literal-not-found", "what": "src/string.rs no longer has `let strip_line_breaks_re = Regex::new(r\"…\").unwrap();`"})),
         Some(re) => {
             let strip_alpha = ["a", " ", "\n", "\r", "\\", "\t", "\u{b}", "\u{c}", "\""];
@@ -497,6 +529,10 @@ pub fn cases(o: &mut Outcome, rng: &mut Rng, thorough: bool) {
             }
         }
     }
+    if !parts.corr {
+        // only the formats whose oracles are asked for
+        items.retain(|it| if it.f.trim { parts.cmt } else { parts.lit || parts.idem });
+    }
     o.count_n("rewrite:items", items.len() as u64);
     // the real code, in parallel (every call compiles the regex); results in order
     let reals: Vec<(String, Option<String>)> = par_map(&items, |it| {
@@ -504,6 +540,7 @@ pub fn cases(o: &mut Outcome, rng: &mut Rng, thorough: bool) {
         rewrite_real(&it.f, &it.text, &c)
     });
     let mut outside: Vec<(String, String)> = vec![];
+    let mut rebreak: Vec<(Item, String)> = vec![];
     for (it, (answer, real)) in items.iter().zip(reals.into_iter()) {
         let req = it.f.request(&it.text);
         match answer.as_str() {
@@ -511,15 +548,39 @@ pub fn cases(o: &mut Outcome, rng: &mut Rng, thorough: bool) {
             "panic" => o.count("rewrite:panic"),
             _ => o.count(if real.as_ref().map(|s| s.contains('\n')).unwrap_or(false) { "rewrite:some:broken" } else { "rewrite:some:one-line" }),
         }
-        if dom.contains(&it.text) {
+        if !parts.corr {
+        } else if dom.contains(&it.text) {
             o.push("corr", "str.rewrite", req, answer, it.desc.into(), true);
         } else {
             outside.push((req, answer));
         }
         if let Some(s) = real {
             if dom.contains(&it.text) {
-                judge_rewrite(o, &it.f, &it.text, &s, it.desc);
+                judge_rewrite(o, &it.f, &it.text, &s, it.desc, parts);
+                if parts.idem && !it.f.trim && it.f.opener == "\"" && it.f.closer == "\"" && it.f.le == "\\" && s.contains('\n') {
+                    rebreak.push((it.clone(), s));
+                }
             }
+        }
+    }
+    // ---- C02 in-process: re-breaking the body of a re-broken literal in the same format is the identity
+    let again: Vec<(String, Option<String>)> = par_map(&rebreak, |(it, s)| {
+        let c = mk_cfg(it.f.mw, it.f.ht, it.f.ts);
+        rewrite_real(&it.f, &s[1..s.len() - 1], &c)
+    });
+    for ((it, s), (_, second)) in rebreak.iter().zip(again.into_iter()) {
+        o.direct_evals += 1;
+        o.direct_distinct += 1;
+        if !idem_hypothesis(&it.text) {
+            let same = second.as_deref() == Some(s.as_str());
+            o.count(if same { "rebreak:outside-hypothesis:same" } else { "rebreak:outside-hypothesis:differs" });
+            if !same && o.notes.len() < 8 {
+                o.notes.push(format!("rebreak outside the hypothesis differs: orig={:?} {:?} first={:?} second={:?}", it.text, it.f.shape, s, second));
+            }
+        } else if second.as_deref() != Some(s.as_str()) {
+            o.direct_failures.push(json!({"sig": "strings:rebreak-not-identity", "orig": it.text, "format": format!("{:?}", it.f), "first": s, "second": second}));
+        } else {
+            o.count("rebreak:same");
         }
     }
     // outside the domain of the model: measured, not an obligation
@@ -530,7 +591,7 @@ pub fn cases(o: &mut Outcome, rng: &mut Rng, thorough: bool) {
     }
 
     // ---- the specification `strValue` against rustc's own unescaping
-    let bodies: Vec<&String> = toks.iter().chain(lits.iter()).filter(|s| rustc_value(s).is_some()).collect();
+    let bodies: Vec<&String> = toks.iter().chain(lits.iter()).filter(|s| parts.lit && rustc_value(s).is_some()).collect();
     let reqs: Vec<String> = bodies.iter().map(|s| format!("str.value {}", enc_str(s))).collect();
     let answers = run_model(&reqs, jobs());
     for (body, a) in bodies.iter().zip(answers.iter()) {
@@ -544,6 +605,422 @@ pub fn cases(o: &mut Outcome, rng: &mut Rng, thorough: bool) {
             o.direct_distinct += 1;
         }
     }
+
+    // ---- end to end through the real formatter
+    e2e(o, rng, thorough, parts, &lits);
+}
+
+/// The hypothesis of `rewriteString_idem_partial`: the text holds no backslash followed by a line break
+/// (nothing for the continuation regex to strip on the first pass that it would strip differently on the second).
+fn idem_hypothesis(orig: &str) -> bool {
+    !orig.contains("\\\n") && !orig.contains("\\\r")
+}
+
+// ------------------------------------------------------------------------------------------------
+// end to end
+
+/// A body of a string literal that rustc accepts: words, blanks, escapes, line continuations, URLs,
+/// punctuation, raw line feeds.
+fn random_body(rng: &mut Rng) -> String {
+    loop {
+        let n = rng.range(2, 16);
+        let mut s = String::new();
+        for _ in 0..n {
+            match rng.below(16) {
+                0 | 1 | 2 | 3 => {
+                    for _ in 0..rng.range(1, 12) {
+                        s.push(*rng.pick(&['a', 'b', 'c', 'x', 'Z', '0', '_', '-', '(', ')', 'é', 'λ', '{', '}']));
+                    }
+                }
+                4 | 5 | 6 => s.push(' '),
+                7 => {
+                    for _ in 0..rng.range(2, 12) {
+                        s.push(' ');
+                    }
+                }
+                8 => s.push_str(*rng.pick(&["\\\\", "\\\"", "\\n", "\\t", "\\x41", "\\u{e9}", "\\'", "\\0", "\\r"])),
+                9 => {
+                    s.push_str("\\\n");
+                    for _ in 0..rng.below(12) {
+                        s.push(' ');
+                    }
+                }
+                10 => {
+                    s.push_str(*rng.pick(&["http://", "https://", "ftp://", "file://"]));
+                    for _ in 0..rng.range(0, 24) {
+                        s.push(*rng.pick(&['a', 'b', '.', '/', '?', '=', '-', '_']));
+                    }
+                }
+                11 | 12 => s.push_str(*rng.pick(&[",", ".", ", ", ". ", ":", "::", ";", "!", "?", "a::b::c", "/", "'", "#", "%", "&", "*", "@"])),
+                13 => s.push('\n'),
+                14 => s.push_str(*rng.pick(&["\t", "\n    ", "\n\n", " \n"])),
+                _ => s.push_str(*rng.pick(&["aaaaaaaaaaaaaaaaaaaaaa", "bbbbbbbbbbb ", "cccccccccccc,", "dddddddddd\\\\", "{}", "{:?}"])),
+            }
+        }
+        let src = format!("\"{}\"", s);
+        let toks: Vec<_> = rustc_lexer::tokenize(&src).collect();
+        let one_literal = toks.len() == 1 && matches!(toks[0].kind, rustc_lexer::TokenKind::Literal { kind: rustc_lexer::LiteralKind::Str { terminated: true }, .. });
+        if one_literal && rustc_value(&s).is_some() {
+            return s;
+        }
+    }
+}
+
+fn lit_program(body: &str, ctx: usize) -> String {
+    match ctx % 5 {
+        0 => format!("fn main() {{\n    let s = \"{}\";\n}}\n", body),
+        1 => format!("fn main() {{\n    foo(a, \"{}\", 1);\n}}\n", body),
+        2 => format!("const S: &str = \"{}\";\n", body),
+        3 => format!("mod m {{\n    fn f() {{\n        if a {{\n            x.push_str(\"{}\");\n        }}\n    }}\n}}\n", body),
+        _ => format!("fn main() {{\n    let v = [\"{}\", b];\n}}\n", body),
+    }
+}
+
+/// One line of comment text: words, punctuation, URLs, runs of blanks; never white space at either end, no
+/// Markdown marker at the start, no comment delimiter inside.
+fn random_comment_text(rng: &mut Rng, markers: bool) -> String {
+    let mut s = String::new();
+    if markers {
+        s.push_str(*rng.pick(&["* ", "- ", "+ ", "> ", "1. ", "12) ", "> > "]));
+    }
+    let n = rng.range(2, 18);
+    for i in 0..n {
+        match rng.below(12) {
+            0 | 1 | 2 | 3 | 4 => {
+                for _ in 0..rng.range(1, 14) {
+                    s.push(*rng.pick(&['a', 'b', 'c', 'x', 'Z', '0', '_', '(', ')', 'é', 'λ', 'e', 't']));
+                }
+            }
+            5 => s.push_str(*rng.pick(&[",", ".", ";", ":", "::", "!", "?", "a::b::c", "'", "\"", "#", "%", "&", "@", "\\", "\\n"])),
+            6 => {
+                s.push_str(*rng.pick(&["http://", "https://", "ftp://", "file://"]));
+                for _ in 0..rng.range(0, 24) {
+                    s.push(*rng.pick(&['a', 'b', '.', '/', '?', '=', '_']));
+                }
+            }
+            7 => s.push_str(*rng.pick(&["aaaaaaaaaaaaaaaaaaaaaaaaaaaaaaaaaaaaaaaaaaaaaaa", "bbbbbbbbbbbbbbbbbbbbbbbbb,ccccccccccccccccccccccccc", "dddddddddd.eeeeeeeeeeeeeeeeeeeeeeeeeeeeeeeee"])),
+            8 => s.push_str("  "),
+            _ => {}
+        }
+        if i + 1 < n {
+            s.push(' ');
+        }
+    }
+    let t = s.trim().replace("*/", "* /").replace("/*", "/ *");
+    let t = t.trim_start_matches(|c: char| "/!*-+>#|`[".contains(c) || c.is_ascii_digit() || c.is_whitespace()).to_string();
+    let t = if markers { format!("{}{}", s.split(' ').next().unwrap_or("*"), format!(" {}", t)) } else { t };
+    if t.trim().is_empty() { "word".to_string() } else { t.trim_end().to_string() }
+}
+
+/// (program, line_start of the wrapped comment)
+fn cmt_program(text: &str, kind: usize, ctx: usize) -> (String, &'static str) {
+    match kind % 4 {
+        // line comment
+        0 => (
+            match ctx % 5 {
+                0 => format!("fn main() {{\n    // {}\n    let x = 1;\n}}\n", text),
+                1 => format!("// {}\nfn main() {{}}\n", text),
+                2 => format!("mod m {{\n    fn f() {{\n        if a {{\n            // {}\n            g();\n        }}\n    }}\n}}\n", text),
+                3 => format!("struct S {{\n    // {}\n    a: u32,\n}}\n", text),
+                _ => format!("fn main() {{\n    g();\n    // {}\n}}\n", text),
+            },
+            "// ",
+        ),
+        // outer doc comment
+        1 => (
+            match ctx % 3 {
+                0 => format!("/// {}\nfn f() {{}}\n", text),
+                1 => format!("mod m {{\n    /// {}\n    fn f() {{}}\n}}\n", text),
+                _ => format!("struct S {{\n    /// {}\n    a: u32,\n}}\n", text),
+            },
+            "/// ",
+        ),
+        // inner doc comment
+        2 => (format!("//! {}\n\nfn f() {{}}\n", text), "//! "),
+        // block comment
+        _ => (
+            match ctx % 2 {
+                0 => format!("fn main() {{\n    /* {} */\n    let x = 1;\n}}\n", text),
+                _ => format!("/* {} */\nfn f() {{}}\n", text),
+            },
+            " * ",
+        ),
+    }
+}
+
+fn comment_block(src: &str) -> String {
+    literals_and_comments(src).1.join("\n")
+}
+
+struct LitCase {
+    body: String,
+    width: usize,
+    src: String,
+    desc: &'static str,
+}
+
+struct CmtCase {
+    text: String,
+    ls: &'static str,
+    src: String,
+    cfg: Vec<(String, String)>,
+    desc: &'static str,
+}
+
+fn kv(k: &str, v: impl ToString) -> (String, String) {
+    (k.to_string(), v.to_string())
+}
+
+fn e2e(o: &mut Outcome, rng: &mut Rng, thorough: bool, parts: Parts, fixture_lits: &[String]) {
+    let timeout = std::time::Duration::from_secs(20);
+    // ---- string literals under format_strings
+    if parts.lit || parts.idem {
+        let mut cases: Vec<LitCase> = vec![];
+        for i in 0..(if thorough { 9000 } else { 900 }) {
+            let body = random_body(rng);
+            let width = rng.range(20, 100);
+            cases.push(LitCase { src: lit_program(&body, i), body, width, desc: "e2e-literal-random" });
+        }
+        // fixture literals that rustc accepts, at a rotating width
+        for (i, l) in fixture_lits.iter().enumerate() {
+            if l.len() < 20 || rustc_value(l).is_none() || (!thorough && i % 4 != (rng.0 % 4) as usize) {
+                continue;
+            }
+            let width = 20 + (i * 7 + (rng.0 % 81) as usize) % 81;
+            cases.push(LitCase { src: lit_program(l, i), body: l.clone(), width, desc: "e2e-literal-fixture" });
+        }
+        // every width 20..=100 on a fixed set of bodies (seed-independent)
+        for (i, body) in E2E_BODIES.iter().enumerate() {
+            for width in (20..=100).filter(|w| thorough || (w + i) % 4 == 0) {
+                cases.push(LitCase { src: lit_program(body, i), body: body.to_string(), width, desc: "e2e-literal-all-widths" });
+            }
+        }
+        let jobs_v: Vec<Job> = cases.iter().map(|c| Job { src: c.src.clone(), cfg: vec![kv("format_strings", "true"), kv("max_width", c.width)], file_lines: None }).collect();
+        let res = pool::run_jobs(&jobs_v, jobs(), timeout);
+        let mut second: Vec<(usize, Job)> = vec![];
+        for (i, (c, r)) in cases.iter().zip(res.iter()).enumerate() {
+            match &r.status {
+                Status::Ok if r.clean() => {}
+                Status::Panic(m) => {
+                    o.direct_failures.push(json!({"sig": "strings:e2e-panic", "src": c.src, "max_width": c.width, "panic": m}));
+                    continue;
+                }
+                Status::Timeout => {
+                    o.count("e2e:lit:timeout");
+                    continue;
+                }
+                _ => {
+                    o.count("e2e:lit:not-clean");
+                    continue;
+                }
+            }
+            let out_lits = literals_and_comments(&r.out).0;
+            if out_lits.len() != 1 {
+                o.direct_failures.push(json!({"sig": "strings:e2e-literal-count", "src": c.src, "max_width": c.width, "out": r.out}));
+                continue;
+            }
+            let changed = out_lits[0] != c.body;
+            o.count(if changed { "e2e:lit:re-broken" } else { "e2e:lit:unchanged" });
+            if parts.lit {
+                o.push("oracle", "str.valeq", format!("str.valeq {} {}", enc_str(&c.body), enc_str(&out_lits[0])), "ok".into(), c.desc.into(), changed);
+                // and rustc's own reading of the two literals
+                o.direct_evals += 1;
+                if rustc_value(&c.body) != rustc_value(&out_lits[0]) {
+                    o.direct_failures.push(json!({"sig": "strings:e2e-literal-value-changed", "src": c.src, "max_width": c.width, "out": r.out}));
+                }
+            }
+            if parts.idem && changed {
+                second.push((i, Job { src: r.out.clone(), cfg: jobs_v[i].cfg.clone(), file_lines: None }));
+            }
+        }
+        if parts.idem {
+            let js: Vec<Job> = second.iter().map(|x| x.1.clone()).collect();
+            let res2 = pool::run_jobs(&js, jobs(), timeout);
+            for ((i, j), r2) in second.iter().zip(res2.iter()) {
+                if r2.status != Status::Ok || !r2.clean() {
+                    o.count("e2e:lit:second-pass-not-clean");
+                    continue;
+                }
+                o.direct_evals += 1;
+                o.direct_distinct += 1;
+                if !idem_hypothesis(&cases[*i].body) {
+                    o.count(if r2.out == j.src { "e2e:lit:idem:outside-hypothesis:same" } else { "e2e:lit:idem:outside-hypothesis:differs" });
+                    if r2.out != j.src && o.notes.len() < 16 {
+                        o.notes.push(format!("e2e literal outside the hypothesis, second pass differs: src={:?} width={} first={:?} second={:?}", cases[*i].src, cases[*i].width, j.src, r2.out));
+                    }
+                } else if r2.out != j.src {
+                    o.direct_failures.push(json!({"sig": "strings:e2e-literal-not-idempotent", "src": cases[*i].src, "max_width": cases[*i].width, "first": j.src, "second": r2.out}));
+                } else {
+                    o.count("e2e:lit:idem:same");
+                }
+            }
+        }
+    }
+    // ---- comments under wrap_comments / normalize_comments
+    if parts.cmt || parts.idem {
+        let mut cases: Vec<CmtCase> = vec![];
+        for i in 0..(if thorough { 9000 } else { 900 }) {
+            let markers = i % 10 == 9;
+            let text = random_comment_text(rng, markers);
+            let kind = rng.below(4);
+            let (src, ls) = cmt_program(&text, kind, rng.below(5));
+            let mut cfg = vec![kv("wrap_comments", "true"), kv("max_width", rng.range(20, 100))];
+            // normalize_comments turns block comments into line comments: only for the line styles here
+            if kind != 3 && rng.chance(1, 2) {
+                cfg.push(kv("normalize_comments", "true"));
+            }
+            if rng.chance(1, 4) {
+                cfg.push(kv("comment_width", rng.range(20, 100)));
+            }
+            cases.push(CmtCase { text, ls, src, cfg, desc: if markers { "e2e-comment-itemized" } else { "e2e-comment-random" } });
+        }
+        for (i, text) in E2E_COMMENTS.iter().enumerate() {
+            for width in (20..=100).filter(|w| thorough || (w + i) % 4 == 0) {
+                for kind in 0..4 {
+                    let (src, ls) = cmt_program(text, kind, i + width);
+                    cases.push(CmtCase { text: text.to_string(), ls, src, cfg: vec![kv("wrap_comments", "true"), kv("max_width", width)], desc: "e2e-comment-all-widths" });
+                }
+            }
+        }
+        let jobs_v: Vec<Job> = cases.iter().map(|c| Job { src: c.src.clone(), cfg: c.cfg.clone(), file_lines: None }).collect();
+        let res = pool::run_jobs(&jobs_v, jobs(), timeout);
+        let mut second: Vec<(usize, Job)> = vec![];
+        for (i, (c, r)) in cases.iter().zip(res.iter()).enumerate() {
+            match &r.status {
+                Status::Ok if r.clean() => {}
+                Status::Panic(m) => {
+                    o.direct_failures.push(json!({"sig": "strings:e2e-panic", "src": c.src, "cfg": format!("{:?}", c.cfg), "panic": m}));
+                    continue;
+                }
+                Status::Timeout => {
+                    o.count("e2e:cmt:timeout");
+                    continue;
+                }
+                _ => {
+                    o.count("e2e:cmt:not-clean");
+                    continue;
+                }
+            }
+            let before = comment_block(&c.src);
+            let after = comment_block(&r.out);
+            let changed = after.contains('\n');
+            o.count(if changed { "e2e:cmt:wrapped" } else { "e2e:cmt:one-line" });
+            if parts.cmt {
+                o.push("oracle", "cmt.payloadeq", format!("cmt.payloadeq {} {} {}", enc_str(c.ls), enc_str(&before), enc_str(&after)), "ok".into(), c.desc.into(), changed);
+                o.push("oracle", "cmt.refines", format!("cmt.refines {} {} {}", enc_str(c.ls), enc_str(&before), enc_str(&after)), "ok".into(), c.desc.into(), changed);
+            }
+            if parts.idem && changed {
+                second.push((i, Job { src: r.out.clone(), cfg: c.cfg.clone(), file_lines: None }));
+            }
+            let _ = &c.text;
+        }
+        if parts.idem {
+            let js: Vec<Job> = second.iter().map(|x| x.1.clone()).collect();
+            let res2 = pool::run_jobs(&js, jobs(), timeout);
+            for ((i, j), r2) in second.iter().zip(res2.iter()) {
+                if r2.status != Status::Ok || !r2.clean() {
+                    o.count("e2e:cmt:second-pass-not-clean");
+                    continue;
+                }
+                o.direct_evals += 1;
+                o.direct_distinct += 1;
+                if r2.out != j.src {
+                    o.direct_failures.push(json!({"sig": "strings:e2e-comment-not-idempotent", "src": cases[*i].src, "cfg": format!("{:?}", cases[*i].cfg), "first": j.src, "second": r2.out}));
+                } else {
+                    o.count("e2e:cmt:idem:same");
+                }
+            }
+        }
+    }
+    if parts.cmt {
+        probes(o);
+    }
+}
+
+/// bodies of string literals that are run at every width 20..=100 (seed-independent)
+const E2E_BODIES: &[&str] = &[
+    "Placerat felis. Mauris porta ante sagittis purus. Neque in sem.      Pellentesque tellus augue.",
+    "aaaaaaaaaaaaaaaaaaaaaaaaaaaaa\\nbbbbbbbbbbbbbbbbbbbbbbbbbbbbbbbbbbbbbbbbbbbbbbb",
+    "aaaaaaaaaaaaaaaaaaaaaaaaaaaaa\\\\bbbbbbbbbbbbbbbbbbbbbbbbbbbbbbbbbbbbbbbbbbbbbbb\\\"ccccccccccccccccc",
+    "C:\\\\Users\\\\someone\\\\AppData\\\\Local\\\\Programs\\\\thing\\\\bin\\\\thing.exe --flag=value",
+    "aaaaaaaaaaaa bbbbbbbbbbbbbbbbbbb cccccccccccccccc                              ",
+    "line one\\nline two\\nline three\\nline four\\nline five\\nline six\\nline seven\\nline eight",
+    "see http://example.com/aaaaaaaaaaaaaaaaaaaaaaaaaaaaaaaaaaaaaaaaaaaaaaaaa for more, or ftp://x.y/z",
+    "first line of text that is long enough to be broken\nsecond raw line, also rather long, with words\nthird",
+    "already broken \\\n         literal with a continuation \\\n         and another one, long enough to re-break",
+    "Venenatis_tellus_vel_tellus. Aliquam aliquam dolor at justo. [TheName](Dont::break::my::type::That)",
+    "tab\there and\tthere, a {} placeholder {:?} and a 'quote' and \\'escaped\\' and \\u{e9}\\x41 é λόγος",
+];
+
+/// comment texts that are run at every width 20..=100 in every comment style (seed-independent)
+const E2E_COMMENTS: &[&str] = &[
+    "Placerat felis. Mauris porta ante sagittis purus. Neque in sem. Pellentesque tellus augue.",
+    "word another_word yet::another::path and a_very_long_identifier_that_does_not_fit_anywhere at all",
+    "Venenatis tellus vel tellus aliquam aliquam dolor at justo venenatis tellus vel tellus aliquam aliquam dolor",
+    "a b c d e f g h i j k l m n o p q r s t u v w x y z a b c d e f g h i j k l m n o p q r s t u v w x y z",
+    "text with a back\\slash and a \"quote\" and 'single' and trailing punctuation, like this; and this: done.",
+];
+
+fn ask(req: String) -> String {
+    run_model(&[req], 1).pop().unwrap_or_default()
+}
+
+/// Enumerated, seed-independent probes: the inputs known dirty on this tree (`fails` expected) and the
+/// reproductions of the four defects of string.rs that were repaired (`fails` must stay false).
+fn probes(o: &mut Outcome) {
+    let fmt = |src: &str, cfg: Vec<(String, String)>| pool::format_here(&Job { src: src.to_string(), cfg, file_lines: None });
+    // STR-CMT-CR: the continuation regex of rewrite_string also runs over comment text
+    {
+        let src = "fn main() {\n    // aaaaaaaaaaaaaaa bbbbbbbbbbbbbbb ccccccccc\\\rdddddddd eeeeeeeeeeeee ffffffffffff\n    let x = 1;\n}\n";
+        let r = fmt(src, vec![kv("wrap_comments", "true"), kv("max_width", 40)]);
+        let (before, after) = (comment_block(src), comment_block(&r.out));
+        let a = ask(format!("cmt.payloadeq {} {} {}", enc_str("// "), enc_str(&before), enc_str(&after)));
+        o.probes.push(json!({"id": "STR-CMT-CR", "fails": r.status == Status::Ok && a != "ok", "what": "wrap_comments: a backslash followed by a bare carriage return inside a comment is deleted (the line-continuation regex of rewrite_string is applied to comment text): two words are merged", "detail": {"src": src, "out": r.out, "oracle": a}}));
+    }
+    // STR-CMT-WORDS: a word is cut after a punctuation character
+    {
+        let src = "fn main() {\n    // aaaaaaaaaaaaaaaaaaaaaaaaaaaaaaaaaaaa,bbbbbbbbbbbbbbbbbbbbbbbbbbbbbbbbbbbbbbb cc\n    let x = 1;\n}\n";
+        let r = fmt(src, vec![kv("wrap_comments", "true"), kv("max_width", 50)]);
+        let (before, after) = (comment_block(src), comment_block(&r.out));
+        let a = ask(format!("cmt.wordseq {} {} {}", enc_str("// "), enc_str(&before), enc_str(&after)));
+        let refines = ask(format!("cmt.refines {} {} {}", enc_str("// "), enc_str(&before), enc_str(&after)));
+        o.probes.push(json!({"id": "STR-CMT-WORDS", "fails": r.status == Status::Ok && a != "ok", "what": "wrap_comments: break_string breaks a comment line after a punctuation character inside a word (`aaa,bbb` comes back as `aaa,` and `bbb` on two lines): the word list changes although no character is lost", "detail": {"src": src, "out": r.out, "oracle": a, "refines": refines}}));
+    }
+    // the four repaired defects of string.rs: reproductions, which must stay clean
+    let fixed: [(&str, &str, usize); 4] = [
+        ("STR-FIX-ESCAPE", "aaaaaaaaaaaaaaaaaaaaaaaaaaaaa\\nbbbbbbbbbbbbbbbbbbbbbbbbbbbbbbbbbbbbbbbbbbbbbbb", 60),
+        ("STR-FIX-BLANK-TAIL", "aaaaaaaaaaaa bbbbbbbbbbbbbbbbbbb cccccccccccccccc                              ", 60),
+        ("STR-FIX-URL-LINEFEED", "see http://e.com/aaaaaaaaaaaaaaaaaaaaaaaaaaaaaaaa\nmore http://x.y", 60),
+        ("STR-FIX-VT", "aaaaaaaaaaaaaaa bbbbbbbbbbbbbbb ccccccccc\\\n    \u{b}dddddddd eeeeeeeeeeeee ffffffffffff", 50),
+    ];
+    for (id, body, width) in fixed {
+        let src = lit_program(body, 0);
+        let r = fmt(&src, vec![kv("format_strings", "true"), kv("max_width", width)]);
+        let out_lits = literals_and_comments(&r.out).0;
+        let bad = r.status != Status::Ok || out_lits.len() != 1 || rustc_value(body) != rustc_value(&out_lits[0]);
+        o.probes.push(json!({"id": id, "fails": bad, "what": "format_strings changed the value of a string literal (a defect of string.rs repaired by a fix: commit came back)", "detail": {"src": src, "out": r.out}}));
+    }
+}
+
+/// Everything (the standalone `rfverif strings`).
+pub fn cases(o: &mut Outcome, rng: &mut Rng, thorough: bool) {
+    cases_parts(o, rng, thorough, Parts { corr: true, lit: true, cmt: true, idem: true });
+}
+
+/// C01: model-vs-code correspondence of string.rs, the value of re-broken string literals in-process and end to end.
+pub fn cases_c01(o: &mut Outcome, rng: &mut Rng, thorough: bool) {
+    cases_parts(o, rng, thorough, Parts { corr: true, lit: true, cmt: false, idem: false });
+}
+
+/// C02: re-breaking at the same width is the identity, in-process and end to end (literals and comments).
+pub fn cases_c02(o: &mut Outcome, rng: &mut Rng, thorough: bool) {
+    cases_parts(o, rng, thorough, Parts { corr: false, lit: false, cmt: false, idem: true });
+}
+
+/// C03: nothing of a wrapped comment is lost (payload, word refinement) in-process and end to end, with the
+/// probes STR-CMT-CR and STR-CMT-WORDS.
+pub fn cases_c03(o: &mut Outcome, rng: &mut Rng, thorough: bool) {
+    cases_parts(o, rng, thorough, Parts { corr: false, lit: false, cmt: true, idem: false });
 }
 
 /// `rfverif strings`: the standalone run of this module.
